@@ -1,9 +1,9 @@
 (* C05 — Cancelling a subprocess terminates its whole process tree, promptly.
-   Property theorems only.  Model: GU.C05.Model — the subprocess package AS REPAIRED by fixes/C05-*.patch (group Cancel +
-   WaitDelay; group kill in Stop and after a cancelled Run) over an executable model of the OS rules (process table,
+   Property theorems only.  Model: GU.C05.Model — the subprocess package AS REPAIRED by fixes/C05-*.patch (group Cancel; Run
+   watches its context until Wait returns; Stop kills the tree and the group before waiting; NO WaitDelay) over an executable model of the OS rules (process table,
    SIGTERM / SIGKILL of a group, Wait = reap + pipes) — tied to the code by the runs of harness/cmd/c05 on real trees.
-   A schedule is ANY list of thread labels (Execute/Start, user, monitor goroutine, os/exec's context watcher, WaitDelay
-   timer, the kill scheduled by Stop, every process of the tree); a disabled choice is a no-op. *)
+   A schedule is ANY list of thread labels (Execute/Start, user, monitor goroutine, os/exec's context watcher, the watcher
+   of cmdWrapper.Run, every process of the tree); a disabled choice is a no-op. *)
 From Coq Require Import List Bool Arith.
 Import ListNotations.
 From GU Require Import C05.Model C05.Proofs C05.ProofsInv C05.ProofsTerm.
@@ -28,13 +28,14 @@ Print Assumptions cancel_bounded.
    PROVED HERE for start mode Execute / supervisor with stop through the context (cancel, deadline, Cancel()) — the family
    of defect D17.  Missing from the proof (covered by the correspondence runs and by cancel_bounded only): start mode
    Start (all five stop modes), i.e. the interplay monitor goroutine / Stop / scheduled kill; the supervisor's restart
-   loop is modelled as one Execute. *)
+   loop is modelled as one Execute.  Premise [no_outside_holder]: no process that left the group holds the output pipes
+   (without it the statement is false: outside_holder_refuted). *)
 Theorem cancel_kills_group_partial : forall sm km t sched,
-  sm <> SStart -> (km = KCtx \/ km = KDeadline \/ km = KCancel) ->
+  sm <> SStart -> (km = KCtx \/ km = KDeadline \/ km = KCancel) -> no_outside_holder t = true ->
   let s := run (init sm km t) sched in
   terminal s -> fired s = true -> good s.
 Proof.
-  intros sm km t sched Hs Hk. apply cancel_kills_group_l; auto.
+  intros sm km t sched Hs Hk Hok. apply cancel_kills_group_l; auto.
   destruct Hk as [-> | [-> | ->]]; reflexivity.
 Qed.
 Print Assumptions cancel_kills_group_partial.
@@ -51,12 +52,30 @@ Proof.
 Qed.
 Print Assumptions stop_on_execute_refuted.
 
+(* Without a WaitDelay, a descendant that has LEFT the group and holds the output pipes keeps Execute in Wait although the
+   whole group is dead (the property does not ask for its death, but does ask for the return): known finding. *)
+Theorem outside_holder_refuted : exists t sched,
+  let s := run (init SExecute KCtx t) sched in
+  terminal s /\ fired s = true /\ no_ingroup_alive (tbl s) = true /\ ~ good s.
+Proof.
+  exists away_tree, [LMain; LMain; LProc 0; LUser; LWatch; LRunWatch; LMain; LMon; LMon].
+  destruct outside_holder_refuted_l as (A & B & C & D & E). cbv zeta. repeat split; auto.
+  intros (_ & G & _). rewrite G in D. discriminate.
+Qed.
+Print Assumptions outside_holder_refuted.
+
+(* Runs that are not cancelled are unchanged by the repair: in every state, Run (Execute) leaves Wait only when no live
+   process holds the output pipes — it waits for a descendant that is still writing, whether or not the child has exited. *)
+Theorem run_waits_for_pipes : forall s s', mainpc s = M3 -> step s LMain = Some s' -> no_holder (tbl s) = true.
+Proof. exact run_waits_for_pipes_l. Qed.
+Print Assumptions run_waits_for_pipes.
+
 (* Non-vacuity: for the tree of D17 (sh -c "sleep & sleep & wait") under Execute + context cancel the canonical schedule
    does reach a terminal state with the request issued — and it is good, within the bound. *)
 Example c05_nonvacuous :
   let t := T false true false false [leaf_tree; leaf_tree] in
   let s := run (init SExecute KCtx t) (canonical t 3) in
-  terminal s /\ fired s = true /\ survivors (tbl s) = 0 /\ call_returned s = true /\ is_on s = false.
+  no_outside_holder t = true /\ terminal s /\ fired s = true /\ survivors (tbl s) = 0 /\ call_returned s = true /\ is_on s = false.
 Proof.
   cbv zeta. repeat split; try (vm_compute; reflexivity).
   intros l; destruct l; try (vm_compute; reflexivity). destruct i as [|[|[|[|i]]]]; vm_compute; reflexivity.
